@@ -24,18 +24,19 @@ Dm == Models[m]
 \* families that do not depend on (t2, b) / on b are checked once per (t1, a) / (t1, t2, a)
 OnlyA == {"unary", "cast", "sizeof", "init"}
 OnlyAT == {"bound", "case", "width"}
-\* Dense = FALSE (quick tier): models A and B, fewer operand values, 5 of the 11 types as the second operand
+\* Dense = FALSE (quick tier): models A and B, fewer operand values, 7 x 5 of the 11 x 11 operand type pairs
 B1a == IF Dense THEN {0, 1, 2, 7, 8, 127, 128, 129, 254, 255} ELSE {0, 1, 128, 255}
 B2a == IF Dense THEN {0, 1, 2, 9, 15, 16, 255, 256, 32767, 32768, 32769, 65534, 65535} ELSE {0, 1, 32768, 65535}
 B1b == IF Dense THEN B1a ELSE {0, 1, 7, 8, 255}
 B2b == IF Dense THEN B2a ELSE {0, 1, 15, 16, 65535}
+T1s == IF Dense THEN IntTypes ELSE {"char", "uchar", "short", "int", "uint", "long", "ullong"}
 T2s == IF Dense THEN IntTypes ELSE {"uchar", "int", "uint", "long", "ullong"}
 ValsA(t, dm) == IF Size(t, dm) = 1 THEN {WFromNat(v, 1) : v \in B1a} ELSE {WFromNat(v, 2) : v \in B2a}
 ValsB(t, dm) == IF Size(t, dm) = 1 THEN {WFromNat(v, 1) : v \in B1b} ELSE {WFromNat(v, 2) : v \in B2b}
 
 Families == {"types", "arith", "divrem", "bitwise", "rel", "logical", "shift", "unary", "cond", "cast",
              "literal", "sizeof", "enum", "init", "bound", "case", "width"}
-Init == /\ m \in (IF Dense THEN 1..Len(Models) ELSE 1..2) /\ t1 \in IntTypes /\ t2 \in T2s
+Init == /\ m \in (IF Dense THEN 1..Len(Models) ELSE 1..2) /\ t1 \in T1s /\ t2 \in T2s
         /\ a \in ValsA(t1, Models[m]) /\ b \in ValsB(t2, Models[m]) /\ phase = "pick"
 Check(f) == /\ phase = "pick" /\ phase' = f /\ UNCHANGED <<m, t1, t2, a, b>>
             /\ f \in OnlyA => (t2 = "char" /\ WIsZero(b))
